@@ -93,6 +93,7 @@ def run_sync(case):
 def run_async(case):
     async def main():
         client = aiomqtt.Client()
+        client.publish_yields = case.get("publish_yields", 0)
         m = ma.Miniconf(client, PREFIX)
         await asyncio.sleep(0)
         results = [None] * len(case["requests"])
@@ -116,7 +117,7 @@ def run_async(case):
             topic, p = props_for(msg, cds)
             m._dispatch(aiomqtt.Message(topic, msg.get("payload", "").encode(), p))
             await asyncio.sleep(0)
-        for _ in range(5):
+        for _ in range(8 + 2 * case.get("publish_yields", 0)):
             await asyncio.sleep(0)
         for t in tasks:
             if not t.done():
